@@ -216,9 +216,11 @@ def run_case(case, ctx):
             ctx.extra["m10_state_items"] = {"max": max(ctx.extra.get("m10_state_items", {}).get("max", 0), cnt)}
             if s0 != s1:
                 changed = sorted(k for k in set(s0) | set(s1) if s0.get(k) != s1.get(k))
-                ctx.violation("determinism", "module-state", "MODULE-STATE-CHANGED", {"show": "%s text %d changed %s" % (case["id"], i, changed[:3]), "keys": changed[:10],
-                                                                                        "before": [s0.get(k, "")[:200] for k in changed[:3]], "after": [s1.get(k, "")[:200] for k in changed[:3]],
-                                                                                        "source": "".join(lines[:30])})
+                # not a violation by itself: a transparent memo (a dict filled with results that never change) alters module state
+                # and no output.  What changed is reported in the evidence; the verdict rests on the outputs under different histories.
+                ctx.notes["M10.module-state-changed-by-an-assembly"] += 1
+                for k_ in changed[:3]:
+                    ctx.notes["M10.changed:" + k_[:60]] += 1
             if given != snapshot or [id(x) for x in given] != ident:
                 ctx.violation("determinism", "input-lines", "INPUT-LIST-MODIFIED", {"show": "%s text %d" % (case["id"], i), "source": "".join(snapshot[:30])})
             fp2 = fpworker.fingerprint(list(lines))
